@@ -76,6 +76,8 @@ def gen_case(rng):
       m = rng.choice([max(1, ww - 1), min(1023, ww + 1), n])
       v = ('b', m, bu.rand_value(rng, m))
     else: v = ('i', bu.rand_int(rng, ww))
+    if rng.random() < 0.06:           # x[lo:hi] = x with the very same object on both sides
+      return ['setslice', n, x, lo, hi, step, asbits, ['b', n, x], 'alias']
     return ['setslice', n, x, lo, hi, step, asbits, list(v)]
   if kind == 'getbit': return ['getbit', n, x, gen_bound(rng, n, False)]
   if kind == 'setbit':
@@ -130,6 +132,16 @@ def as_bound(b, asbits):
     return Bits(12, b)
   return b
 
+def write_checked(f, x, n, x0, v, vdesc):
+  """a write that raises must leave the target as it was ("raises an error rather than ... overwriting different bits"),
+  and no write may change its right-hand side operand (unless that operand is the target itself)"""
+  out = bu.run(f)
+  if out.startswith('err ') and not (x.nbits == n and int(x) == x0):
+    return f'impure rejected-write-changed-target {hex(x0)}->{hex(int(x))}'
+  if v is not x and vdesc[0] == 'b' and not (v.nbits == vdesc[1] and int(v) == vdesc[2]):
+    return f'impure write-changed-its-operand {hex(vdesc[2])}->{hex(int(v))}'
+  return out
+
 def impl_eval(c):
   k = c[0]
   if k == 'getslice':
@@ -137,10 +149,11 @@ def impl_eval(c):
     return bu.run_read_fresh(lambda: x[sl], x)
   if k == 'setslice':
     x = bu.mk(c[1], c[2]); sl = slice(as_bound(c[3], c[6]), as_bound(c[4], c[6]), c[5]); v = bu.opnd_real(c[7])
+    if len(c) > 8: v = x            # aliased write: the right-hand side is the target object itself
     def f():
       x[sl] = v
       return x
-    return bu.run(f)
+    return write_checked(f, x, c[1], c[2], v, c[7])
   if k == 'getbit':
     x = bu.mk(c[1], c[2]); return bu.run_read_fresh(lambda: x[c[3]], x)
   if k == 'setbit':
@@ -148,7 +161,7 @@ def impl_eval(c):
     def f():
       x[c[3]] = v
       return x
-    return bu.run(f)
+    return write_checked(f, x, c[1], c[2], v, c[4])
   if k == 'concat':
     parts = [bu.mk(m, v) for m, v in c[1]]
     return bu.run_read_fresh(lambda: concat(*parts), parts[0]) if parts else bu.run(lambda: concat(*parts))
@@ -269,6 +282,8 @@ CORPUS = [
   ['setslice', 8, 0xab, 2, 6, None, False, ['i', -9]], ['setslice', 8, 0xab, 2, 6, None, False, ['b', 5, 1]],
   ['setslice', 8, 0xab, 2, 6, None, False, ['b', 3, 1]], ['setslice', 8, 0xff, 0, 8, None, False, ['b', 8, 0]],
   ['setslice', 8, 0xab, 0, 4, 0, False, ['i', 1]],
+  ['setslice', 8, 0x5a, None, None, None, False, ['b', 8, 0x5a], 'alias'], ['setslice', 8, 0x5a, 0, 8, None, False, ['b', 8, 0x5a], 'alias'],
+  ['setslice', 8, 0x5a, 0, 4, None, False, ['b', 8, 0x5a], 'alias'],
   ['getbit', 8, 0xab, 8], ['getbit', 8, 0xab, -1], ['getbit', 8, 0xab, 7], ['setbit', 8, 0xab, 2, ['i', -1]],
   ['setbit', 8, 0xab, 2, ['i', 2]], ['setbit', 8, 0xab, 2, ['b', 2, 1]], ['setbit', 8, 0xab, 8, ['i', 1]],
   ['concat', [[512, 1], [511, 3]]], ['concat', [[512, 1], [512, 3]]], ['concat', [[1, 1], [1, 0], [2, 3]]],
